@@ -152,6 +152,40 @@ def run_case(case, ctx):
             okcd = all(np.all(np.asarray(pv[k]) == v) for k, v in want.items()) and all(cd_.fixed_parameters[k] == v for k, v in want.items())
             ctx.check("c11.conditional-fixed", okcd, f"{fam}: a conditional distribution does not use its own fixed value (another conditional distribution with another value exists)", want=want, got={k: pv[k] for k in want}, **info)
 
+        # 2c. the fixed value is used whatever form the conditioning values come in: an integer vector / list / scalar
+        # gives the same results as the same values as floats (pdf, cdf, icdf and seeded samples)
+        eff_c = dict(R.DEFAULTS[fam])
+        eff_c.update(fixed)
+        if R.admissible(fam, eff_c) and not (fam == "lnnf" and eff_c["mu_norm"] <= 0):
+
+            def _mk(a0):
+                def f(x, a=a0):
+                    return a + 0 * x
+
+                return f
+
+            cd_c = ConditionalDistribution(cls(**{f"f_{k}": v for k, v in fixed.items()}), {k: DependenceFunction(_mk(R.DEFAULTS[fam][k])) for k in free_names})
+            with np.errstate(all="ignore"):
+                xq = np.asarray(R.icdf(fam, np.array([0.2, 0.5, 0.8]), **eff_c), float)
+            if np.all(np.isfinite(xq)):
+                gi = np.array([1, 2, 3])
+                forms = {"int64": gi, "int32": gi.astype(np.int32), "list-of-int": [1, 2, 3]}
+                base_ = {"cdf": np.asarray(cd_c.cdf(xq, gi.astype(float)), float), "pdf": np.asarray(cd_c.pdf(xq, gi.astype(float)), float), "icdf": np.asarray(cd_c.icdf(np.array([0.2, 0.5, 0.8]), gi.astype(float)), float), "draw": np.asarray(cd_c.draw_sample(4, gi.astype(float), random_state=11), float)}
+                okw = bool(np.all(np.abs(base_["cdf"] - np.array([0.2, 0.5, 0.8])) <= 1e-9))
+                ctx.check("c11.conditional-fixed", okw, f"{fam}: conditional cdf with a fixed parameter does not use it", want=[0.2, 0.5, 0.8], got=base_["cdf"], **info)
+                for fname, gform in forms.items():
+                    try:
+                        got_ = {"cdf": np.asarray(cd_c.cdf(xq, gform), float), "pdf": np.asarray(cd_c.pdf(xq, gform), float), "icdf": np.asarray(cd_c.icdf(np.array([0.2, 0.5, 0.8]), gform), float), "draw": np.asarray(cd_c.draw_sample(4, gform, random_state=11), float)}
+                    except Exception as e:  # noqa: BLE001
+                        ctx.count(f"c11.conditional-given-form-raised[{fname}:{type(e).__name__}]")
+                        continue
+                    for what_, v_ in got_.items():
+                        same_ = v_.shape == base_[what_].shape and bool(np.array_equal(v_, base_[what_], equal_nan=True))
+                        ctx.check("c11.conditional-fixed", same_, f"{fam}: conditional {what_} with a fixed parameter depends on the dtype/form of the conditioning values ({fname} vs float)", form=fname, got=v_, want=base_[what_], **info)
+                gs_int = np.asarray(cd_c.draw_sample(5, 2, random_state=3), float)
+                gs_flt = np.asarray(cd_c.draw_sample(5, 2.0, random_state=3), float)
+                ctx.check("c11.conditional-fixed", bool(np.array_equal(gs_int, gs_flt)), f"{fam}: conditional draw_sample with a fixed parameter differs between given=2 and given=2.0", got=gs_int, want=gs_flt, **info)
+
     # 3. fitting
     data = _data(case, rng)
     start = dict(d.parameters)
